@@ -52,6 +52,26 @@ def variant_names(fb, suffix):
     return {}
 
 
+def _recv_effects(st):
+    return [(n, ef) for n, ef in enumerate(st.effects) if ef['kind'] == 'call' and not ef['tracing'] and is_recv(ef['callee'])]
+
+
+def _second_message(st, term, op, val):
+    """does the path just learn that a receive other than its first one delivered a message (its Result is Ok)?"""
+    if not (term[0] == 't' and term[1] == 'discr' and term[2][0][0] == 't' and term[2][0][1] == 'call' and is_recv(term[2][0][2][0])):
+        return False
+    is_ok = (op == '==' and val == 0) or (op == '!=' and 1 in val)
+    if not is_ok:
+        return False
+    rs = _recv_effects(st)
+    return bool(rs) and term[2][0][2][1] != rs[0][0]
+
+
+def _last_recv_site(p):
+    rs = _recv_effects(p)
+    return (rs[-1][1]['site'][0], rs[-1][1]['site'][1]) if rs else None
+
+
 class UpdaterModel:
     def __init__(self, fb, chk, rule):
         self.fb = fb
@@ -67,10 +87,33 @@ class UpdaterModel:
                    for _, _, fn in common.user_calls(b)):
                 cands.append(b)
         self.dispatch = None
+        self.segment_problem = None
         for b in cands:
             # private traits with one implementation are looked through; the segment write itself stays an opaque call
             eng = common.mk_engine(fb, unique_impls=True, havoc_loops=True, no_inline=lambda x: is_shm_write(x.path))
+            # One path describes the handling of ONE message. A loop that reads its mailbox at several places (a blocking
+            # wait, then a drain of what queued up) is explored per receive site: a path ends ('cut') at the moment it
+            # learns that a further receive delivered a message, and what happens to that message is explored from the
+            # receive site itself, with everything the function did before forgotten.
+            eng.cut_cond = _second_message
             paths = [p for p in eng.run(b) if p.kind != 'unreachable']
+            done, todo = set(), []
+            for p in paths:
+                if p.kind == 'cut':
+                    todo.append(_last_recv_site(p))
+            while todo:
+                site = todo.pop()
+                if site is None or site in done:
+                    continue
+                done.add(site)
+                if site[0] != b.path:
+                    self.segment_problem = 'a second receive on one path sits inside %s (not in the loop function itself)' % site[0]
+                    continue
+                more = [p for p in eng.run(b, start_bb=site[1]) if p.kind != 'unreachable']
+                for p in more:
+                    if p.kind == 'cut':
+                        todo.append(_last_recv_site(p))
+                paths += more
             if any(any(ef['kind'] == 'call' and is_shm_write(ef['callee']) for ef in p.effects) for p in paths):
                 self.dispatch = b
                 self.engine = eng
@@ -78,6 +121,9 @@ class UpdaterModel:
                 break
         if self.dispatch is None:
             chk.missing(rule, 'dispatch loop of the segment writer (recv loop reaching ShmWrite::write)')
+            return
+        if self.segment_problem:
+            chk.missing(rule, 'one message per path of the dispatch loop: %s' % self.segment_problem)
             return
         chk.saw(self.dispatch)
         chk.analysed['paths'] += len(self.paths)
